@@ -506,6 +506,8 @@ class Run:
         self.violations = []   # (kind, description, replay lines)
         self.inconclusive = []
         self.timeout_ms = 60000 if tier == "quick" else 300000
+        self.second = {"cvc5": {}, "z3-4.8": {}}
+        self.second_time = 0.0
 
     def check_gross_first(self, name, constraints, diff_terms, tol):
         """negated property |a - b| > tol; a model with a gross violation (1e3 x) is preferred as the
@@ -531,11 +533,46 @@ class Run:
             self.samples.append({"query": name, "verdict": str(r), "solver_s": round(dt, 3)})
         if r == z3.unsat:
             self.unsat += 1
+            if self.tier == "thorough":
+                self.second_opinion(name, s)
             return None
         if r == z3.unknown:
             self.inconclusive.append("%s: solver returned unknown (%s)" % (name, s.reason_unknown()))
             return None
         return s.model()
+
+
+def _second_opinion(self, name, solver):
+    """thorough tier: every UNSAT answer of the deciding solver (the z3 of the tooling venv) is
+    re-decided from the exported SMT-LIB text by two independent solver builds, cvc5 1.0 and the
+    system z3 4.8.12.  `unknown` / timeout from a second solver is no opinion; `sat` is a
+    disagreement and makes the run inconclusive."""
+    d = os.path.join(os.environ.get("VERIF_CACHE", os.path.join(os.path.dirname(os.path.dirname(os.path.abspath(__file__))), ".cache")), "c17_smt")
+    os.makedirs(d, exist_ok=True)
+    path = os.path.join(d, "q%d.smt2" % os.getpid())
+    open(path, "w").write("(set-logic ALL)\n" + solver.to_smt2())
+    for label, cmd in (("cvc5", ["cvc5", "--lang", "smt2", "--tlimit=20000", path]), ("z3-4.8", ["/usr/bin/z3", "-T:20", path])):
+        try:
+            t0 = time.time()
+            out = subprocess.run(cmd, stdout=subprocess.PIPE, stderr=subprocess.STDOUT, text=True, timeout=40).stdout
+            self.second_time += time.time() - t0
+        except (subprocess.TimeoutExpired, OSError):
+            out = "timeout"
+        lines = [l.strip() for l in out.splitlines()]
+        if "(error" in out:
+            verdict = "no-opinion"
+        elif "unsat" in lines:
+            verdict = "unsat"
+        elif "sat" in lines:
+            verdict = "sat"
+        else:
+            verdict = "no-opinion"
+        self.second[label][verdict] = self.second[label].get(verdict, 0) + 1
+        if verdict == "sat":
+            self.inconclusive.append("%s: %s answers sat where the deciding solver answered unsat" % (name, label))
+
+
+Run.second_opinion = _second_opinion
 
 
 def mag_constraints(x, lo, hi, allow_zero=True):
@@ -987,6 +1024,7 @@ def main():
             "samples": run.samples or [{"note": "no query ran"}],
             "explanation": "states = SMT queries posed (negated property instances over symbolic unit index / magnitude / rounding-error variables); transitions = queries answered UNSAT; traces = native calls of units::convert / resolve_unit compared with the encoding (translator validation) or used to confirm a model",
             "queries": run.queries, "unsat": run.unsat, "solver_time_s": round(run.solver_time, 1),
+            "second_opinions": {"per_solver": run.second, "wall_s": round(run.second_time, 1), "note": "thorough tier only: every UNSAT re-decided from the exported SMT-LIB text by cvc5 1.0 and z3 4.8.12; no-opinion = unknown / timeout / unsupported"},
             "units_extracted": len(ex["rows"]) if ex else 0,
             "identifiers_extracted": sum(len(r["ids"]) for r in ex["rows"]) if ex else 0,
             "functions_encoded": ["units::get_all_units (table)", "Unit::convert_to_base", "Unit::convert_from_base", "celsius_to_kelvin, kelvin_to_celsius, fahrenheit_to_kelvin, kelvin_to_fahrenheit, kelvin_to_kelvin", "units::convert (guard + composition)", "units::resolve_unit (decision list)"],
@@ -999,7 +1037,7 @@ def main():
             "IEEE-754 round-to-nearest modelled as relative error <= 2^-53 per operation over the reals (sound while intermediates stay normal; magnitude side condition checked per category)",
             "the encoding is regenerated from units.rs by a tokenizer/parser for the shapes the file uses today; an unrecognised shape makes the run inconclusive, never a pass",
             "translator validation: native units::convert results on sampled points must lie inside the encoding's error envelope on every run",
-            "z3 4.x nonlinear real arithmetic (nlsat) is trusted for UNSAT answers; thorough tier re-decides with a second configuration",
+            "z3 4.x nonlinear real arithmetic (nlsat) is trusted for UNSAT answers; the thorough tier re-decides every UNSAT with cvc5 1.0 and z3 4.8.12 from the exported SMT-LIB text (a `sat` from either makes the run inconclusive)",
         ],
         "wall_s": round(time.time() - t0, 1),
         "violations": nviol,
